@@ -26,8 +26,8 @@ def _index(m):
     return feats
 
 
-def exact(shape, cards, m=None) -> bool:
-    m = R.build(shape, cards) if m is None else m
+def exact(shape, cards, m=None, abstract=None) -> bool:
+    m = R.build(shape, cards, abstract=abstract) if m is None else m
     feats = _index(m)
     from .common import result_twice
     res = result_twice(FMCoreFeatures(), m)
@@ -75,7 +75,7 @@ def once_ctc(shape, cards, x, y, kind) -> bool:
     return id(m.root) in ids
 
 
-def replay_with_ctcs(shape, cards, trees, light=False):
+def replay_with_ctcs(shape, cards, trees, light=False, abstract=None):
     """E2: every returned feature is in every configuration of tree /\\ ctcs; returned once; root included;
     model unchanged. light: the z3 part is skipped."""
     import z3
@@ -87,7 +87,7 @@ def replay_with_ctcs(shape, cards, trees, light=False):
     f, var = R.tree2z3(shape, cards, z3, ctx)
     env = {'F%d' % i: var[i] for i in range(n)}
     cf = [R.tree2z3_expr(t, env, z3, ctx) for t in trees]
-    m = R.build(shape, cards, ctcs=[R.ctc('c%d' % i, t) for i, t in enumerate(trees)])
+    m = R.build(shape, cards, ctcs=[R.ctc('c%d' % i, t) for i, t in enumerate(trees)], abstract=abstract)
     snap = R.snapshot(m)
     res = FMCoreFeatures().execute(m).get_result()
     out = []
@@ -136,9 +136,11 @@ def batch_e2(max_n, lo, hi, seed):
                 res['instances'] += 1
                 res['nontrivial'] += 1
                 res['native_runs'] += 1
-                bad = replay_with_ctcs(shape, cards, trees, light)
+                # abstract markers are payload the operation must not look at: none / every other feature / all
+                ab = [None, [i % 2 == 0 for i in range(n)], [True] * n, [i % 2 == 1 for i in range(n)]][res['instances'] % 4]
+                bad = replay_with_ctcs(shape, cards, trees, light, ab)
                 if bad:
-                    res['violations'].append({'label': 'core-e2', 'detail': bad[0], 'replay_func': 'replay_with_ctcs', 'replay_args': [shape, cards, trees, light]})
+                    res['violations'].append({'label': 'core-e2', 'detail': bad[0] + ' abstract=%r' % (ab,), 'replay_func': 'replay_with_ctcs', 'replay_args': [shape, cards, trees, light, ab]})
                     if len(res['violations']) >= 3:
                         return res
                 res['sample'] = {'shape': R.shape_str(shape), 'cards': cards, 'constraints': trees}
@@ -150,7 +152,7 @@ def conditions(tier, seed):
     from .common import cards_params
     N = 5 if tier == 'quick' else 7
     conds = cards_conditions('c14_exact', 'c14', 'exact', indexed_shapes(N), 30 if tier == 'quick' else 90,
-                             'core features == forced set (closed form)')
+                             'core features == forced set (closed form)', flags=True)
     M = 4 if tier == 'quick' else 5
     for si, shape in indexed_shapes(M, 3):
         n = R.n_features(shape)
